@@ -34,25 +34,25 @@ prop('C02', level='proof', modules=['Polyseed.Props.C02'], suites=['gf'],
      technique='Lean 4 proof (linear algebra over GF(2048), decide +kernel over the field) + exhaustive correspondence on mul2',
      assumptions=['coefficients are < 2048 (word indices, coin < 2048)'])
 prop('C04', level='proof', modules=['Polyseed.Props.C04'], suites=[],
-     api=dict(cone=['keygen', 'create', 'load', 'decode', 'decodex', 'crypt', 'dump', 'store']),
+     api=dict(cone=['keygen', 'create', 'load', 'decode', 'decodex', 'decoden', 'crypt', 'dump', 'store']),
      text='Theorems keygen_events (exactly one KDF call; password = 32-byte secret buffer; salt bytes spelled out; 10000 iterations; key length passed through), keygen_password (zero padding for canonical seeds), kdfArgs_inj (different secret/coin/birthday/features give different inputs), kdfArgs_path_independent. S-api records all seven KDF arguments of every call on the real code, compares the key buffer with what the stub wrote and the seed before/after, and compares KDF inputs of seeds reached by different paths (create, decode in any language, load, crypt twice).',
      note=PROOF_NOTE + 'Modelled, not verified: polyseed_keygen. That the library does not READ the key afterwards is invisible to a pattern comparison; only writes are observed.',
      technique='Lean 4 proof (event theorem + injectivity of the salt layout) + API-history correspondence with recorded KDF arguments',
      assumptions=['coin < 2048; canonical seeds (proved invariant, C13)'])
 prop('C05', level='proof', modules=['Polyseed.Props.C05'], suites=['gf'],
-     api=dict(cone=['encode', 'decode', 'decodex', 'create', 'dump'], weights=dict(errors=6, roundtrip=2)),
+     api=dict(cone=['encode', 'decode', 'decodex', 'decoden', 'create', 'dump'], weights=dict(errors=6, roundtrip=2)),
      text='Theorems wrong_coin (a valid polynomial encoded for coin a fails the checksum for every b != a; corollary of C02.single_error), same_coin, coin_changes_word2_only, for all polynomials and all 2048x2047 ordered pairs. S-api decodes phrases for wrong coins on the real code (biased to coins 0/2047 and XOR-neighbours).',
      note=PROOF_NOTE + 'Stated on coefficient vectors; the lifting to phrases uses the word-lookup theorems (C07/C08).',
      technique='Lean 4 proof (corollary of the GF(2048) single-error theorem) + API-history correspondence',
      assumptions=['coins are < 2048 (the API asserts it; larger values are outside the model)'])
 prop('C12', level='proof', modules=['Polyseed.Props.C12'], suites=[],
-     api=dict(cone=['crypt', 'dump', 'store', 'load', 'encode', 'decode', 'decodex'], weights=dict(crypt=8, storage=1, roundtrip=1)),
+     api=dict(cone=['crypt', 'dump', 'store', 'load', 'encode', 'decode', 'decodex', 'decoden'], weights=dict(crypt=8, storage=1, roundtrip=1)),
      text='Theorems crypt_involutive (twice with the same mask restores a canonical seed bit for bit, every mask), crypt_canon (result canonical for every mask: 150 bits, zero padding, check value recomputed), crypt_toggles, cryptSecret_getD (mask = first 19 KDF bytes, top two bits of the 19th dropped), crypt_events (one KDF call with NFKD(password), salt bytes spelled out, 10000 iterations, 32 bytes; three wipes), crypt_norm_equiv. S-api applies passwords (ASCII, composed/decomposed, empty, 358-400 bytes, invalid UTF-8) with pseudo-random masks and checks every clause on the real code.',
      note=PROOF_NOTE + 'Modelled, not verified: polyseed_crypt, utf8_nfkd_lazy. Assumes the injected NFKD returns a NUL-terminated string shorter than POLYSEED_STR_SIZE and its length.',
      technique='Lean 4 proof (byte-wise XOR algebra, all masks) + API-history correspondence with recorded KDF calls',
      assumptions=['the injected KDF is a deterministic function of its inputs'])
 prop('C18', level='proof', modules=['Polyseed.Props.C18'], suites=[],
-     api=dict(cone=['inject', 'create', 'free', 'encode', 'crypt', 'keygen', 'decode', 'decodex', 'load'], weights=dict(inject=6, roundtrip=2, crypt=1, faults=1)), extra='extra_syms_undef',
+     api=dict(cone=['inject', 'create', 'free', 'encode', 'crypt', 'keygen', 'decode', 'decodex', 'decoden', 'load'], weights=dict(inject=6, roundtrip=2, crypt=1, faults=1)), extra='extra_syms_undef',
      text='Theorems inject_replaces / inject_last_wins / inject_optional (libc time, malloc, free exactly when the entry is NULL) / inject_frame, create_events (alloc, clock, 19 random bytes, wipe - in this order, nothing else), create_secret (secret = the 19 bytes with the top two bits of the last dropped; injective on the 150 bits), create_junk_independent. S-api injects two distinguishable stub sets with each optional entry present/NULL (libc interposed with --wrap), overwrites and unmaps the caller struct after injection, and checks which function served every dependency call.',
      note=PROOF_NOTE + 'Modelled, not verified: dependency.c, polyseed_create. "No other source of randomness or time" is additionally checked by the undefined-symbol inventory of the objects (S-syms).',
      technique='Lean 4 proof (event theorems over all random/clock outputs) + API-history correspondence with function identities',
@@ -93,7 +93,7 @@ prop('C17', level='proof', modules=['Polyseed.Props.C17'], suites=[],
      technique='Lean 4 proof (kernel-evaluated per-position maxima of the regenerated tables) + extremal witness seeds on the real code',
      assumptions=['NFC composition does not lengthen a string'])
 prop('C01', level='proof', modules=['Polyseed.Props.C01'], suites=['pack'],
-     api=dict(cone=['encode', 'decode', 'decodex', 'create', 'load', 'dump', 'store', 'keygen'], weights=dict(roundtrip=8, crypt=1, storage=1)), extra='extra_norm',
+     api=dict(cone=['encode', 'decode', 'decodex', 'decoden', 'create', 'load', 'dump', 'store', 'keygen'], weights=dict(roundtrip=8, crypt=1, storage=1)), extra='extra_norm',
      text='Theorems decodeExplicit_encode (for EVERY canonical supported seed, coin < 2048 and language whose table passed the kernel check: explicit decoding of the encoded phrase returns OK and the identical seed), decode_encode (auto-detection: that seed with that language, or the multiple-languages status; nothing else), decodeExplicit_wrong_coin, normOK_ascii. They rest on polyToData_dataToPoly (packing round trip, all seeds), the GF(2048) algebra, splitN_joinWords, findAll_words (from the tables) and one explicit hypothesis NormOK about the injected normalisers (proved for ASCII phrases, validated by S-norm for the others). S-api performs round trips in all languages with real NFC/NFKD (utf8proc) and compares seeds, serialized bytes and KDF inputs.',
      note=PROOF_NOTE + 'NormOK (NFKD(NFC(phrase)) = words joined by single spaces) is a statement about Unicode data outside the repository: validated by exhaustive execution over all 20480 words and separators with two independent normalisers, not proved.',
      technique='Lean 4 proof (round trip through packing, checksum, tokeniser and table lookup; hypothesis NormOK) + API round trips with real normalisers',
@@ -104,14 +104,14 @@ prop('C07', level='proof', modules=['Polyseed.Props.C07'], suites=['find'], extr
      technique='Lean 4 proof by kernel evaluation over the regenerated tables (certificate checkers proved sound) + exhaustive normaliser execution',
      assumptions=['plain char signed (model parameter sgn = true); see C19'])
 prop('C08', level='proof', modules=['Polyseed.Props.C08'], suites=['find'],
-     api=dict(cone=['decode', 'decodex'], weights=dict(variants=8, badtokens=4, roundtrip=1)),
+     api=dict(cone=['decode', 'decodex', 'decoden'], weights=dict(variants=8, badtokens=4, roundtrip=1)),
      text='Theorems find_exact_iff (Japanese, Korean, both Chinese lists: a token is accepted for a word iff it IS the word, for every NUL-free token; from bsearch/linear-search soundness + compare_str = 0 iff equal + the table certificates), exact_languages, findWord_sound (whatever index the search returns compares equal under the language comparator, all languages, all tokens). For the six abbreviating languages the rule (exact, or prefix of at least four letters; accents ignored in Spanish/French) is checked EXHAUSTIVELY per word on the real code and the model: every prefix length x every subset of accents kept/dropped x continuations (S-find), and through the API with real NFKD in composed and decomposed form (S-api). Open finding D6 (non-accent non-ASCII bytes are skipped too) is a KNOWN-FINDING; the full iff for the abbreviating languages is therefore not claimed as a theorem (find_iff_rule would be false without a Latin-domain hypothesis).',
      note=PROOF_NOTE, technique='Lean 4 proof + exhaustive correspondence on find_word', assumptions=[])
 prop('C19', level='other', modules=['Polyseed.Props.C19'], suites=[], extra='extra_sign',
      text='Theorems rank_is_signed_order / sgnCmp_is_signed / isNeg_is_signed / isNeg_is_unsigned / rank_facts: after the repair of D2 the model has NO signedness parameter (every comparison goes through the unsigned byte value, as compare_char and IS_NON_ASCII do in the code) and the explicit order is exactly the signed-char order the shipped sorted lists were built for. Runtime (S-sign): the same unit and API scripts (all languages; composed, decomposed, abbreviated, unaccented phrases; non-ASCII passwords) on a -fsigned-char and a -funsigned-char build, each compared with the one model and with each other - a difference is reported with the failing input.', note=PROOF_NOTE, technique='Lean 4 theorem about the model parameter + two builds', assumptions=[],
      explanation='two char-signedness builds of the tree run the same scripts; their transcripts are compared with each other and with the model')
 prop('C09', level='proof', modules=['Polyseed.Props.C09'], suites=['detect'],
-     api=dict(cone=['decode', 'decodex'], weights=dict(badtokens=5, mixed=4, variants=3, faults=2, garbage=2, roundtrip=1)),
+     api=dict(cone=['decode', 'decodex', 'decoden'], weights=dict(badtokens=5, mixed=4, variants=3, faults=2, garbage=2, roundtrip=1)),
      text='Theorems phraseDecode_cases (auto-detection = case split on the languages that recognise ALL tokens: none/one/several -> language error/OK with that language/multiple languages, regardless of checksums), decode_eq_explicit (on success: exactly the outcome, state and events of explicit decoding with that language), decode_status and decodeExplicit_status (precedence: word count, language, checksum, memory, unsupported), splitN_inv / strSplit_16 (16 is returned only for exactly 16 space-free tokens joined by single spaces plus at most one trailing space). All generic in the language list. Correspondence: phrase_decode on token lists with common words, foreign/empty/garbage tokens; API decodes with doubled/leading/trailing/ideographic separators, 15/17 tokens, failing allocators.',
      note=PROOF_NOTE + 'For non-ASCII input the tokenised string is what the injected NFKD returns (may truncate to the buffer size): the dependency contract.',
      technique='Lean 4 proof (generic case analysis of the detection loop and tokeniser inversion) + correspondence on phrase_decode and API decodes',
@@ -208,7 +208,13 @@ def run_api(ctx, pid, viol, stats, weights=None, sessions=None, nops=None, varia
             if sess.crashed:
                 viol.append(Violation('crash', 'harness-build', sess.crashed, suite=tag, variant=variant))
                 break
-            g.run(nops, weights)
+            try:
+                g.run(nops, weights)
+            except Exception as ex:   # the generator met an answer it cannot interpret: report, never crash the check
+                import traceback
+                viol.append(Violation('crash', 'generator-exception', 'the history generator could not interpret an answer of the real code (%s): %s' % (
+                    ex, traceback.format_exc()[-600:]), script=sess.script[-700:], suite=tag, variant=variant))
+                sess.close()
             st['evaluations'] += len(sess.ops)
             for op in sess.ops:
                 if op.head != 'skip':
@@ -237,19 +243,38 @@ def run_api(ctx, pid, viol, stats, weights=None, sessions=None, nops=None, varia
 
 
 def witness_seed(ctx, li):
-    """C17: a seed whose phrase in language li puts a longest admissible word at every data position
-    (feature bits kept supported by choosing even indices at words 2-6); returns (secret19, birthday, features, coin, predicted_len)"""
+    """C17: a seed whose phrase in language li is as long as any phrase of that language can be: all 15 data words AND
+    the check word are longest words (searched: the check word is a function of the data words), user features enabled so
+    that the feature bits are free, the reserved bit (low bit of word 3) kept zero.
+    Returns (secret19, birthday, features, coin, predicted_len)."""
     words = ctx.langs.words(li)
-    order = sorted(range(len(words)), key=lambda i: -len(words[i]))
-    longest = order[0]
-    even = next(i for i in order if i % 2 == 0)
-    cs = [even] * 5 + [longest] * 10
-    coin = cs[0] ^ longest   # word 2 shows the longest word
+    rnd = ctx.rnd('witness-%d' % li)
+    mx = max(len(w) for w in words)
+    longest = [i for i, w in enumerate(words) if len(w) == mx]
+    second = [i for i, w in enumerate(words) if len(w) >= mx - 1]
+    best = None
+    for pool, tries in ((longest, 8000), (second, 2000)):
+        even = [i for i in pool if i % 2 == 0]
+        if not even:
+            m2 = max(len(words[i]) for i in range(0, len(words), 2))
+            even = [i for i in range(0, len(words), 2) if len(words[i]) == m2]
+        for _ in range(tries):
+            cs = [rnd.choice(pool) for _ in range(15)]
+            cs[1] = rnd.choice(even)            # feature bit 3 (reserved) is the low bit of the second data word
+            chk = spec.poly_eval([0] + cs)
+            total = len(words[chk]) + sum(len(words[c]) for c in cs)
+            if best is None or total > best[0]:
+                best = (total, cs)
+            if total == 16 * mx:
+                break
+        if best and best[0] == 16 * mx:
+            break
+    cs = best[1]
     sec, b, f, _ = spec.unpack([0] + cs)
-    p = spec.poly(sec, b, f, coin)
+    p = spec.poly(sec, b, f, 0)
     sep = ctx.langs.langs[li]['separator']
     n = sum(len(words[c]) for c in p) + 15 * len(sep)
-    return sec, b, f, coin, n
+    return sec, b, f, 0, n
 
 
 def extra_c17(ctx, pid, viol, stats):
@@ -260,7 +285,7 @@ def extra_c17(ctx, pid, viol, stats):
     strsize = ctx.langs.consts['STR_SIZE']
     for li in range(ctx.langs.n):
         sec, b, f, coin, n = witness_seed(ctx, li)
-        script = [suites.INJECT, 'load 0 ' + spec.storage(sec, b, f).hex(), 'encode 0 %d %d' % (li, coin)]
+        script = [suites.INJECT, 'features 7', 'load 0 ' + spec.storage(sec, b, f).hex(), 'encode 0 %d %d' % (li, coin)]
         res = core.run_pair(ctx.tree, 'asan', script, 'witness')
         st['evaluations'] += res.ops
         for op in res.c_ops:
